@@ -16,7 +16,7 @@ VERIF = gen.VERIF
 FINDERS = [
     (r'TextSelectionSet::test|TextSelection::test_set|rightmost|leftmost', 'find_rel_sets'),
     (r'TextSelection::test(/|_set/)|toggle_negate|toggle_all|with_limit', 'find_rel_pair'),
-    (r'TextSelection::(textselection_by_offset|beginaligned_cursor|relative_|absolute_offset)', 'find_relative_offsets'),
+    (r'TextSelection::(textselection_by_offset|beginaligned_cursor|relative_|absolute_offset|is_embedded_in)|Offset::len|trait Text<.*::absolute_offset', 'find_relative_offsets'),
     (r'subselectors__resolve|AnnotationStore::annotate', 'find_annotate_failures'),
     (r'subselectors__', 'find_subselectors'),
     (r'textselection_by_offset|beginaligned_cursor', 'find_offset_accept'),
